@@ -2,6 +2,7 @@
 import itertools
 import random
 
+from .. import histprop as H
 from .. import tt, fix
 from ..denote import Den, Builder
 from ..viol import Violation, require
@@ -9,6 +10,7 @@ from ..viol import Violation, require
 ID = 'C04'
 LEVEL = 'exploration'
 RULE = (
+    'H: Hypothesis histories on used managers (several lets in one manager without a collection in between, collections, re-used node numbers, swaps, dynamic reordering) mixing the three forms of let. '
     'E (n<=3, all orders, fresh and used managers): cofactor - every '
     'function x every partial assignment (3^n); rename - every function x '
     'every total or partial map names->names ((n+1)^n: injective or not, '
@@ -27,8 +29,24 @@ ASSUMPTIONS = [
 ]
 
 
+HIST_ALPHA = {'build': 8, 'apply': 2, 'let_const': 8, 'let_rename': 8, 'let_compose': 10, 'drop': 6, 'gc': 5, 'swap': 3, 'sift': 1, 'reorder_to': 1, 'declare': 1, 'var': 1}
+
+
+def _hist_nontrivial(w):
+    return w.labels.get('gc.number_reused', 0) > 0 or bool(w.nontrivial & {'swap', 'sift', 'reorder_to', 'dynreorder'})
+
+
+def _hist_plan(tier, seed):
+    cfgs = [dict(kind='bdd', nmax=4, init_vars=3), dict(kind='autoref', nmax=5, init_vars=4), dict(kind='autoref', nmax=5, init_vars=4, reordering=True, reorder_starts=4)]
+    return [dict(kind='history', seed=seed * 1000 + 500 + s, cfgs=cfgs,
+                 examples=1200 if tier == 'thorough' else 200,
+                 min_len=10, max_len=45)
+            for s in range(8 if tier == 'thorough' else 4)]
+
+
 def plan(tier, seed):
     specs = []
+    specs += _hist_plan(tier, seed)
     for n in (1, 2, 3):
         for order in fix.orders(n):
             for variant in ('fresh', 'used'):
@@ -346,6 +364,8 @@ def run_random(spec, out):
 
 
 def replay_into(case, out):
+    if case.get('kind') == 'history':
+        return H.replay_into(case, out)
     kind = case['kind']
     if kind == 'random':
         out.guard(case, lambda: check_random_case(case))
@@ -368,5 +388,7 @@ def replay_into(case, out):
 
 
 def run(spec, out):
+    if spec['kind'] == 'history':
+        return H.run_random(spec, out, HIST_ALPHA, _hist_nontrivial)
     dict(small=run_small, compose1=run_compose1, random=run_random)[
         spec['kind']](spec, out)
